@@ -1,7 +1,9 @@
 """C18 — copies are isolated, views write through, rigid operations preserve shape.
 
 Case: {"kind": "seq", "stream": "exact"|"float", "labels": "deep"|"any", "setup": seed,
-       "steps": [seed, …]}
+       "steps": [seed, …], "grammar": 2}      (no "grammar" key: the first op grammar, kept so that
+                                                 corpus cases and old replays mean what they meant)
+      {"kind": "routes"}                       the routing table of `Atom.__setattr__`, name by name
 Everything (species, files, which object an operation hits, its arguments) is derived from the
 seeds, so a case replays exactly and shrinks by deleting steps.
 
@@ -20,6 +22,18 @@ Oracle (the property's clauses on the implementation, independent of the model):
   write-through after an assignment through `mol[i]`, an iteration view or `res[i]` the parent shows it
   rigid         move / move_to / rotate keep all pairwise distances (whole molecule, across
                 residues), centre moves by d / to p / not at all, to 1e-9
+  add           the Residue returned by `res + res`, `res + atom`, `atom + res`, `0 + res` shares no AtomGro
+                object and no array memory with its operands (it starts a new provenance class, so the
+                isolation clause watches it for the rest of the history); `atom + atom` builds its Residue
+                out of the operands themselves (the classes merge; counted, an observation)
+  remove_atom   afterwards the residue holds the same objects in the same order minus one, the one removed
+                is the argument itself or equal to it by (resname, name); nothing outside the class changes
+
+Grammar 2 adds: named attribute assignment / reads on `Atom` views, AtomGro objects and Molecules
+(`setattrn` / `getattrn`: every route of `Atom.__setattr__` / `__getattr__` that stays inside the cell model),
+`==` between any two handles, `Atom(view.atom_top, x)` / `Atom(x, y)`, `res.remove_atom(x)` — on free residues
+and on residue views of molecules, the owning molecule is observed afterwards and stays in the op grammar —,
+`a + b`, `0 + a`.
 """
 import itertools
 import os
@@ -39,6 +53,11 @@ RULE = ("operation sequences (<= 40 quick / <= 200 thorough) over {copy (incl. A
 
 TOL = 1e-9
 
+RULE += (" Grammar 2 (all generated cases): + named attribute set/get on views / AtomGro / Molecule (all routes of "
+         "Atom.__setattr__/__getattr__), ==, Atom(top, gro), Residue.remove_atom (free residues and residue views "
+         "of molecules; the ragged owner stays in the grammar), a + b, 0 + a; one 'routes' case per run compares "
+         "the routing table name by name.")
+
 PRODUCERS = ("copy", "deepcopy", "molwith", "getatom", "iteratom", "getres")
 
 
@@ -46,9 +65,10 @@ def generate(ctx):
     rng = ctx.rng
     nseq = ctx.n(400, 2200)
     maxlen = 40 if ctx.quick() else 200
+    yield {"kind": "routes"}
     for _ in range(nseq):
         nops = rng.randint(4, maxlen) if rng.random() < 0.8 else rng.randint(1, 6)
-        yield {"kind": "seq",
+        yield {"kind": "seq", "grammar": 2,
                "stream": "exact" if rng.random() < 0.6 else "float",
                "labels": "any" if rng.random() < 0.12 else "deep",
                "setup": rng.getrandbits(40),
@@ -116,7 +136,7 @@ def label_ok(w, i, mode):
     return not class_has_mol(w, m["g"])
 
 
-def choose_op(w, rng, i, mode):
+def choose_op(w, rng, i, mode, grammar=1):
     m = w.meta[i]
     k = m["kind"]
     crowded = len(w.env) >= 28
@@ -157,6 +177,22 @@ def choose_op(w, rng, i, mode):
         if label_ok(w, i, mode):
             add("set:resname", 1.5)
             add("set:name", 1.5)
+    if grammar >= 2:
+        if k == "mol":
+            for name, wt in (("setn", 0.4), ("getn", 0.4), ("eq", 1.2), ("add", 0.4), ("radd0", 0.2),
+                             ("remove", 0.2)):
+                add(name, wt)
+        elif k == "res":
+            for name, wt in (("remove", 3.0), ("add", 2.5), ("radd0", 0.8), ("eq", 1.2)):
+                add(name, wt)
+        elif k == "agro":
+            for name, wt in (("setn", 3.0), ("getn", 3.0), ("eq", 1.0), ("add", 3.0), ("radd0", 0.2),
+                             ("remove", 0.2), ("mkatom", 0.6)):
+                add(name, wt)
+        elif k == "atom":
+            for name, wt in (("setn", 4.0), ("getn", 4.0), ("eq", 1.2), ("add", 0.4), ("radd0", 0.2),
+                             ("remove", 0.2), ("mkatom", 1.5)):
+                add(name, wt)
     tot = sum(wt for _, wt in ops)
     x = rng.uniform(0, tot)
     for name, wt in ops:
@@ -175,7 +211,260 @@ def rand_name(rng, long_ok=False):
     return "".join(rng.choice("XYZWQ") for _ in range(n))
 
 
-def do_step(ctx, w, rng, mode):
+# ----------------------------------------------------------------------------- grammar 2: values, names
+
+X_READONLY = ("eq", "getn", "mkatom", "add", "radd0")      # nothing observable may change
+
+
+def to_pyval(v):
+    """a Python value as the model's PyVal"""
+    if isinstance(v, (bool, np.bool_)):
+        return ("bool", bool(v))
+    if isinstance(v, (int, np.integer)):
+        return ("int", int(v))
+    if isinstance(v, str):
+        return ("str", v)
+    if v is None:
+        return ("none",)
+    if isinstance(v, np.ndarray) and v.shape == (3,):
+        return ("vec", tuple(float(c) for c in v))
+    if isinstance(v, (set, frozenset)) and all(isinstance(x, (int, np.integer)) for x in v):
+        return ("nats", tuple(sorted(int(x) for x in v)))
+    return ("opaque",)
+
+
+def tok_pyval(pv):
+    k = pv[0]
+    if k == "int":
+        return f"int {pv[1]}"
+    if k == "str":
+        return f"str {hg.hexs(pv[1])}"
+    if k == "vec":
+        return "vec " + tok_v3(pv[1])
+    if k == "nats":
+        return " ".join(["nats", str(len(pv[1]))] + [str(x) for x in pv[1]])
+    if k == "bool":
+        return f"bool {int(pv[1])}"
+    return k
+
+
+def wpick(rng, pool):
+    tot = sum(wt for _, wt in pool)
+    x = rng.uniform(0, tot)
+    for name, wt in pool:
+        x -= wt
+        if x <= 0:
+            return name
+    return pool[-1][0]
+
+
+def pick_set_attr(w, rng, i, mode):
+    """(attribute name, python value) for `setattr(env[i], name, value)`: every route of `Atom.__setattr__`
+    that stays inside the cell model; label / topology-data names only where the property claims isolation"""
+    kind = w.meta[i]["kind"]
+    lab = label_ok(w, i, mode)
+    if kind == "atom":
+        pool = [("resid", 2), ("top_resid", 2), ("gro_resid", 2), ("atom_gro", .5), ("atom_top", .5),
+                ("__weakref__", .3), ("__class__", .3), ("__dict__", .3), ("__doc__", .5), ("__module__", .5),
+                ("residname", 1), ("element", 1.5), ("position", 3), ("velocity", 2), ("atomid", 2), ("fresh", 1.5)]
+        if lab:
+            pool += [("resname", 1.5), ("name", 2.0), ("index", 1.5), ("bonds", 1.5)]
+    elif kind == "agro":
+        pool = [("resid", 2), ("atomid", 2), ("position", 3), ("velocity", 2), ("residname", 1), ("element", 1)]
+        if lab:
+            pool += [("resname", 1.5), ("name", 2.0)]
+    else:
+        pool = [("resname", 1), ("resid", 1), ("residname", 1), ("remove_atom", 1)]
+    name = wpick(rng, pool)
+    if name in ("resid", "top_resid", "gro_resid"):
+        v = rng.randint(0, 9999)
+    elif name == "atomid":
+        v = rng.randint(0, 99999)
+    elif name == "position":
+        v = w.ro(hg.vec(rng, w.stream))
+    elif name == "velocity":
+        v = None if rng.random() < 0.25 else w.ro(hg.velc(rng, w.stream))
+    elif name == "resname":
+        v = rand_name(rng)
+    elif name == "name":
+        # one in five without any letter: `element` then raises IOError, also inside `hasattr`
+        v = "".join(rng.choice("0123456789") for _ in range(rng.randint(1, 3))) if rng.random() < 0.2 \
+            else rand_name(rng)
+    elif name == "index":
+        v = rng.randint(0, 30)
+    elif name == "bonds":
+        v = set(rng.sample(range(12), rng.randint(0, 3)))
+    elif name == "fresh":
+        name, v = "tag%d" % rng.randint(0, 9), rng.randint(0, 99)
+    else:
+        v = 5
+    return name, v
+
+
+def pick_get_attr(w, rng, i):
+    kind = w.meta[i]["kind"]
+    if kind == "atom":
+        pool = ["resid", "top_resid", "gro_resid", "resname", "name", "index", "bonds", "position", "velocity",
+                "atomid", "residname", "element", "element", "copy", "atom_gro", "__eq__", "gro_line", "connect",
+                "missing%d" % rng.randint(0, 9)]
+    elif kind == "agro":
+        pool = ["resid", "resname", "name", "atomid", "position", "velocity", "residname", "element", "element",
+                "gro_line", "copy", "missing%d" % rng.randint(0, 9)]
+    else:
+        pool = ["resname", "resid", "residname", "remove_atom"]
+    return rng.choice(pool)
+
+
+WT_ATTR = {"position": "pos", "velocity": "vel", "atomid": "atomid", "gro_resid": "gro_resid",
+           "top_resid": "top_resid", "resname": "resname", "name": "name"}
+
+
+def same_object_in(res, x):
+    return any(a is x for a in res)
+
+
+def do_step_x(ctx, w, rng, mode, op, i, rec):
+    """the operations of grammar 2 (model: GMModel.HeapX)"""
+    o = w.env[i]
+    m = w.meta[i]
+    kind = m["kind"]
+    rec["alloc_only"] = op in X_READONLY
+    n_env = len(w.env)
+
+    def partner(pred=None, p_any=0.3):
+        c = [j for j in range(n_env) if pred(j)] if pred else []
+        if c and rng.random() >= p_any:
+            return rng.choice(c)
+        return rng.randrange(n_env)
+
+    if op == "setn":
+        name, v = pick_set_attr(w, rng, i, mode)
+        pv = to_pyval(v)
+        st, _ = w.run(f"setattrn {i} {hg.hexs(name)} {tok_pyval(pv)}", f"{kind}[{i}].{name}={v!r} (named)",
+                      lambda: setattr(o, name, v))
+        ctx.count(f"setn:{kind}:{name if not name.startswith('tag') else 'fresh'}:{st}")
+        wt = None
+        if kind == "atom":
+            wt = WT_ATTR.get(name)
+        elif kind == "agro":
+            wt = "gro_resid" if name == "resid" else \
+                (WT_ATTR.get(name) if name in ("position", "velocity", "atomid", "resname", "name") else None)
+        if wt:      # the write-through clause applies: same bookkeeping as the typed `set:` operations
+            rec["op"] = "set:" + wt
+            rec["attr"] = wt
+            rec["value"] = None if v is None else (tuple(float(c) for c in v) if isinstance(v, np.ndarray) else v)
+    elif op == "getn":
+        name = pick_get_attr(w, rng, i)
+        st, ret = w.run(f"getattrn {i} {hg.hexs(name)}", f"getattr({kind}[{i}], {name!r})", lambda: (getattr(o, name),))
+        if st == "ok":
+            w.extra[-1] = to_pyval(ret[0])
+        ctx.count(f"getn:{kind}:{name if not name.startswith('missing') else 'missing'}:{st}")
+    elif op == "eq":
+        j = partner(lambda j: w.meta[j]["kind"] == kind, 0.35)
+        p = w.env[j]
+        st, ret = w.run(f"eq {i} {j}", f"{kind}[{i}] == {w.meta[j]['kind']}[{j}]", lambda: (o == p,))
+        if st == "ok":
+            w.extra[-1] = to_pyval(ret[0])
+            ctx.count(f"eq:{kind}:{w.meta[j]['kind']}:{ret[0]}")
+    elif op == "mkatom":
+        if kind == "atom" and rng.random() < 0.85:
+            j = partner(lambda j: w.meta[j]["kind"] == "agro", 0.25)
+            p = w.env[j]
+            st, _ = w.run(f"mkatom {i} {j} 1", f"Atom(atom[{i}].atom_top, {w.meta[j]['kind']}[{j}])",
+                          lambda: type(o)(o.atom_top, p),
+                          {"g": w.meta[j]["g"], "t": m["t"], "parent": None, "k": None})
+        else:
+            from gaddlemaps.components import Atom
+            j = partner(lambda j: w.meta[j]["kind"] == "agro", 0.5)
+            p = w.env[j]
+            st, _ = w.run(f"mkatom {i} {j} 0", f"Atom({kind}[{i}], {w.meta[j]['kind']}[{j}])", lambda: Atom(o, p))
+        ctx.count(f"mkatom:{kind}:{w.meta[j]['kind']}:{st}")
+    elif op == "remove":
+        if kind == "res":
+            x = rng.random()
+            own = [j for j in range(n_env) if w.meta[j]["kind"] == "agro" and same_object_in(o, w.env[j])]
+            labels = {(str(a.resname), str(a.name)) for a in o}
+            twins = [j for j in range(n_env) if w.meta[j]["kind"] == "agro" and not same_object_in(o, w.env[j])
+                     and (str(w.env[j].resname), str(w.env[j].name)) in labels]
+            if x < 0.55 and own:
+                j, how = rng.choice(own), "own"
+            elif 0.55 <= x < 0.75 and twins:
+                j, how = rng.choice(twins), "equal-not-identical"
+            elif 0.75 <= x < 0.87 or not len(o):
+                j, how = rng.randrange(n_env), "any"
+            elif own and x >= 0.87:
+                j, how = rng.choice(own), "own"
+            else:
+                # no handle on one of its atoms yet: take one (a later step can remove it)
+                k = rng.randrange(len(o))
+                st, _ = w.run(f"getatom {i} {k}", f"res[{i}] getatom {k}", lambda: o[k],
+                              {"g": m["g"], "t": None, "parent": i, "k": k})
+                rec["op"], rec["alloc_only"], rec["status"] = "getatom", True, st
+                return rec
+        else:
+            j, how = rng.randrange(n_env), "not-a-residue"
+        p = w.env[j]
+        before = list(o) if kind == "res" else None
+        st, _ = w.run(f"remove {i} {j}", f"{kind}[{i}].remove_atom({w.meta[j]['kind']}[{j}])",
+                      lambda: o.remove_atom(p))
+        ctx.count(f"remove:{how}:{st}")
+        if st == "ok":
+            after = list(o)
+            ks = [k for k in range(len(before)) if len(after) == len(before) - 1 and
+                  all(a is b for a, b in zip(before[:k] + before[k + 1:], after))]
+            good = [k for k in ks if before[k] is p or (str(before[k].resname), str(before[k].name)) ==
+                    (str(getattr(p, "resname", None)), str(getattr(p, "name", None)))]
+            if not good:
+                ctx.oracle_fail("c18:remove_atom:not-one-matching-atom-removed", w.case, {"op": w.desc[-1]})
+            elif not any(before[k] is p for k in good):
+                ctx.count("remove:removed-an-equal-atom-not-the-argument")
+            ctx.oracle_ok(1)
+            owners = [q for q, mq in enumerate(w.meta) if mq["kind"] == "mol" and any(r is o for r in w.env[q].residues)]
+            for q in owners:
+                ctx.count("remove:owner-molecule-now-ragged" if hg.observe(w.env[q])[0] == "MR"
+                          else "remove:owner-molecule-not-ragged")
+    elif op == "add":
+        def related(j):
+            mj = w.meta[j]
+            return mj["kind"] in ("res", "agro") and w.find(mj["g"]) == w.find(m["g"])
+        x = rng.random()
+        if kind in ("res", "agro") and x < 0.3:
+            # any Residue / AtomGro, also of another residue or molecule (other residname: ValueError)
+            j = partner(lambda j: w.meta[j]["kind"] in ("res", "agro"), 0.0)
+        else:
+            j = partner(related if kind in ("res", "agro") else None, 0.3)
+        p = w.env[j]
+        kj = w.meta[j]["kind"]
+        shares = kind == "agro" and kj == "agro"
+        meta = {"g": w.union(m["g"], w.meta[j]["g"]) if shares else w.new_g(), "t": None, "parent": None, "k": None}
+        st, ret = w.run(f"add {i} {j}", f"{kind}[{i}] + {kj}[{j}]", lambda: o + p, meta)
+        ctx.count(f"add:{kind}+{kj}:{st}")
+        if st == "ok":
+            mine = hg.gro_atoms(ret)
+            theirs = hg.gro_atoms(o) + hg.gro_atoms(p)
+            shared = any(a is b for a in mine for b in theirs)
+            if shares:
+                ctx.count("add:agro+agro:result-holds-the-operands" if shared else "add:agro+agro:result-copied")
+            elif shared:
+                ctx.oracle_fail("c18:add:result-shares-atoms-with-operand:" + kind + "+" + kj, w.case, {"op": w.desc[-1]})
+            ctx.oracle_ok(1)
+            rec["copylike"] = not shares
+    elif op == "radd0":
+        st, ret = w.run(f"radd0 {i}", f"0 + {kind}[{i}]", lambda: 0 + o,
+                        {"g": w.new_g(), "t": None, "parent": None, "k": None})
+        ctx.count(f"radd0:{kind}:{st}")
+        if st == "ok":
+            if any(a is b for a in hg.gro_atoms(ret) for b in hg.gro_atoms(o)):
+                ctx.oracle_fail("c18:add:result-shares-atoms-with-operand:0+" + kind, w.case, {"op": w.desc[-1]})
+            ctx.oracle_ok(1)
+            rec["copylike"] = True
+    else:  # pragma: no cover
+        raise ValueError(op)
+    rec["status"] = st
+    return rec
+
+
+def do_step(ctx, w, rng, mode, grammar=1):
     """pick a live object and an operation; run it on the implementation; return a record for the
     oracle: dict(op, i, status, touched classes, details)"""
     from gaddlemaps import Alignment
@@ -188,10 +477,50 @@ def do_step(ctx, w, rng, mode):
     o = w.env[i]
     m = w.meta[i]
     kind = m["kind"]
-    op = choose_op(w, rng, i, mode)
+    op = choose_op(w, rng, i, mode, grammar)
+    if grammar >= 2 and rng.random() < 0.24:
+        # aim at the grammar-2 operations: they need Residue / AtomGro / view handles, which a uniform choice
+        # among the live objects rarely hits
+        flow = rng.choice(["remove", "remove", "add", "attr", "attr", "eq", "ragged"])
+        by = {}
+        for j, mj in enumerate(w.meta):
+            by.setdefault(mj["kind"], []).append(j)
+        pick = None
+        if flow == "remove":
+            c = [j for j in by.get("res", []) if len(w.env[j])]
+            pick = (rng.choice(c), "remove") if c else (rng.choice(by["mol"]), "getres")
+        elif flow == "add":
+            c = by.get("res", []) + by.get("agro", [])
+            pick = (rng.choice(c), rng.choice(["add", "add", "add", "radd0"])) if c else (rng.choice(by["mol"]), "getres")
+        elif flow == "attr":
+            c = by.get("atom", []) + by.get("agro", [])
+            pick = (rng.choice(c), rng.choice(["setn", "setn", "getn", "mkatom"])) if c else \
+                (rng.choice(by["mol"]), "getatom")
+        elif flow == "eq":
+            pick = (rng.randrange(len(w.env)), "eq")
+        else:
+            c = [j for j in by.get("mol", []) if len(w.env[j]) != natoms(w.env[j])]
+            if c:
+                j = rng.choice(c)
+                pick = (j, choose_op(w, rng, j, mode, grammar))
+        if pick:
+            i, op = pick
+            o, m = w.env[i], w.meta[i]
+            kind = m["kind"]
+            ctx.count("flow:" + flow)
     rec = {"op": op, "i": i, "kind": kind, "g": m["g"],
            "t": m["t"] if kind in ("mol", "atom") else None, "alloc_only": op in PRODUCERS}
     n = natoms(o)
+    if op in ("setn", "getn", "eq", "mkatom", "remove", "add", "radd0"):
+        return do_step_x(ctx, w, rng, mode, op, i, rec)
+    if op == "molwith" and any(len(r) == 0 for r in o.residues):
+        # `System.__getitem__/__iter__` compute the stride from `len(stored.resnames)`, which raises once
+        # `remove_atom` emptied a residue of the stored molecule (IndexError; ValueError through `last()`):
+        # that is System's bookkeeping (C11/C12), not `base.copy(residues)` which `molwith` models
+        ctx.count("molwith:skipped:stored-molecule-has-an-empty-residue")
+        op = rec["op"] = "copy"
+    # after `remove_atom` on one of its residues a molecule has len(mol) != number of its atoms; aim at both
+    nl = len(o) if kind == "mol" and grammar >= 2 and len(o) != n and rng.random() < 0.6 else n
     if op == "copy" and kind == "mol" and rng.random() < 0.25:
         # copy(new_residues): the optional argument, with residues that are still OWNED by a live object — the
         # molecule's own, or those of another molecule with the same topology.  The result must be as isolated
@@ -254,7 +583,7 @@ def do_step(ctx, w, rng, mode):
         st, _ = w.run(toks, f"system[{j}] via {variant}", fn,
                       {"g": w.new_g(), "t": m["t"], "parent": None, "k": None})
     elif op in ("getatom", "iteratom"):
-        k = rng.randrange(n)
+        k = rng.randrange(max(1, nl))
         if op == "getatom":
             fn = lambda: o[k]
         else:
@@ -278,7 +607,7 @@ def do_step(ctx, w, rng, mode):
         st, _ = w.run(f"rotate {i} {tok_v3(R.flatten())}", f"{kind}[{i}].rotate", lambda: o.rotate(w.ro(R)))
         rec["R"] = R
     elif op == "setpos":
-        nn = n if rng.random() < 0.93 else max(0, n + rng.choice([-1, 1]))
+        nn = nl if rng.random() < 0.93 else max(0, nl + rng.choice([-1, 1]))
         P = [hg.vec(rng, stream) for _ in range(nn)]
 
         def fn():
@@ -290,7 +619,7 @@ def do_step(ctx, w, rng, mode):
                 o.atoms_velocities = None
             st, _ = w.run(f"setvel {i} 0", f"{kind}[{i}].atoms_velocities=None", fn)
         else:
-            nn = n if rng.random() < 0.93 else max(0, n + rng.choice([-1, 1]))
+            nn = nl if rng.random() < 0.93 else max(0, nl + rng.choice([-1, 1]))
             V = [hg.velc(rng, stream) for _ in range(nn)]
 
             def fn():
@@ -298,7 +627,7 @@ def do_step(ctx, w, rng, mode):
             st, _ = w.run(f"setvel {i} 1 {nn} " + " ".join(tok_v3(v) for v in V),
                           f"{kind}[{i}].atoms_velocities=", fn)
     elif op == "setids":
-        nn = n if rng.random() < 0.93 else max(0, n + rng.choice([-1, 1]))
+        nn = nl if rng.random() < 0.93 else max(0, nl + rng.choice([-1, 1]))
         ids = [rng.randint(0, 99999) for _ in range(nn)]
 
         def fn():
@@ -396,7 +725,7 @@ def oracle_step(ctx, case, w, rec, before, after, stepno):
     for j in range(nb):
         mj = w.meta[j]
         a, b = before[j], after[j]
-        gro_may = (not rec["alloc_only"]) and mj["g"] == rec["g"]
+        gro_may = (not rec["alloc_only"]) and w.find(mj["g"]) == w.find(rec["g"])
         tj = mj["t"] if mj["kind"] in ("mol", "atom") else None
         top_may = (not rec["alloc_only"]) and rec["t"] is not None and tj == rec["t"]
         if not gro_may and not hg.bits_equal(hg.gro_part(a), hg.gro_part(b)):
@@ -423,6 +752,12 @@ def oracle_step(ctx, case, w, rec, before, after, stepno):
         m = w.meta[i]
         par = m.get("parent")
         if par is not None and m.get("k") is not None:
+            # after `remove_atom` on the parent the k-th place may hold another atom (or none)
+            pats = hg.gro_atoms(w.env[par])
+            if not (m["k"] < len(pats) and pats[m["k"]] is hg.gro_atoms(w.env[i])[0]):
+                ctx.count("view-detached-by-remove_atom")
+                par = None
+        if par is not None and m.get("k") is not None:
             pob = after[par]
             k = m["k"]
             pg = hg.gro_part(pob)[k]
@@ -432,7 +767,7 @@ def oracle_step(ctx, case, w, rec, before, after, stepno):
             if attr in idx:
                 want = tuple(float(c) for c in v) if attr in ("pos", "vel") and v is not None else v
                 shown = hg.bits_equal(pg[idx[attr]], want)
-            if attr in ("top_resid", "resname", "name") and pob[0] == "M":
+            if attr in ("top_resid", "resname", "name") and pob[0] == "M" and w.meta[i]["kind"] == "atom":
                 tp = pob[2][k][1]
                 tidx = {"name": 0, "resname": 1, "top_resid": 2}[attr]
                 shown = shown and tp[tidx] == v
@@ -529,10 +864,145 @@ def observe_readonly(ctx, case, w, seed, stepno):
     ctx.oracle_ok(2)
 
 
+# ----------------------------------------------------------------------------- the routing table, name by name
+
+SENT = 12345
+
+
+def real_route(name):
+    """what the REAL `Atom.__setattr__` does with `atom.<name> = 12345` on a scratch view: the exception class
+    (or None) and the set of (object, key) whose value became 12345 — object in {'view', 'top', 'gro'}"""
+    from gaddlemaps.components import AtomGro, AtomTop, Atom
+    a = Atom(AtomTop("A1", "RA", 1, 0), AtomGro([1, "RA", "A1", 1, 0.0, 0.0, 0.0]))
+    top, gro = a._atom_top, a._atom_gro
+    exc = None
+    try:
+        setattr(a, name, SENT)
+    except Exception as e:   # noqa: BLE001
+        exc = hg.exc_name(e)
+    landed = set()
+    for where, obj in (("view", a), ("top", top), ("gro", gro)):
+        d = object.__getattribute__(obj, "__dict__")
+        for k, v in d.items():
+            if isinstance(v, int) and not isinstance(v, bool) and v == SENT:
+                landed.add((where, k))
+    return exc, landed
+
+
+def expected_from_tag(tag, name):
+    """the same outcome, as the model's routing table predicts it"""
+    head, _, field = tag.partition(":")
+    if head in ("pairSlot", "ownDict", "fresh"):
+        return None, {("view", name)}
+    if head in ("residRaise", "ownReadOnly", "topReadOnly", "groElement"):
+        return "AttributeError", set()
+    if head == "ownTypeErr":
+        return "TypeError", set()
+    if head == "both":
+        return None, {("top", field), ("gro", field)}
+    if head == "ownProp":
+        return None, {("top" if field == "top_resid" else "gro", "resid")}
+    if head in ("top", "gro"):
+        return None, {(head, field)}
+    if head in ("topOther", "groOther"):
+        return None, {(head[:3], name)}
+    return "?", set()
+
+
+def values_cb(ctx, case, tol):
+    def values(k, cur, world, mst):
+        # a successful `getattrn` / `eq` answers with the value it read
+        if world.ops[k].split(" ", 1)[0] in ("getattrn", "eq") and mst == "ok":
+            if cur.tok() != "V":
+                raise ValueError("expected V")
+            got = cur.pyval()
+            want = world.extra[k]
+            if world.status[k] == "ok" and not hg.obs_close(want, got, tol):
+                ctx.disagree(case, f"C18 heap model: value of op {k} ({world.desc[k]})", want, got)
+    return values
+
+
+GET_NAMES = ["resid", "top_resid", "gro_resid", "resname", "name", "index", "bonds", "position", "velocity", "atomid",
+             "residname", "element", "copy", "atom_gro", "atom_top", "__eq__", "__add__", "gro_line", "connect",
+             "closest_atoms", "missing0", "foo", "Position", "x"]
+
+
+def evaluate_routes(ctx, case):
+    from gaddlemaps.components import AtomGro, AtomTop, Atom
+    # --- (1) `__setattr__`, name by name: the real method on a scratch view vs the model's table
+    a = Atom(AtomTop("A1", "RA", 1, 0), AtomGro([1, "RA", "A1", 1, 0.0, 0.0, 0.0]))
+    names = set(object.__dir__(a)) | set(dir(a._atom_top)) | set(dir(a._atom_gro))
+    names |= {"resid", "foo", "tag0", "missing1", "x", "Position", "velocities", "atom_id", "bond", "indexes",
+              "top_resids", "gro_resids", "_atom", "residue", "resnames", "names"}
+    names = sorted(n for n in names if all(32 < ord(c) < 127 for c in n))
+    for name in names:
+        exc, landed = real_route(name)
+        ctx.count("route:%s:%s" % (exc or "ok", "+".join(sorted({w_ for w_, _ in landed})) or "-"))
+
+        def cb(status, toks, case, name=name, exc=exc, landed=landed):
+            tag = toks[0] if status == "ok" and toks else status
+            want = expected_from_tag(tag, name)
+            if want != (exc, landed):
+                ctx.disagree(case, f"C18 routing table: atom.{name} = v  (model route {tag})",
+                             (exc, sorted(landed)), (want[0], sorted(want[1])))
+        ctx.model.ask("atomroute", hg.hexs(name), cb, case)
+    # the element clause: `hasattr(self._atom_gro, 'element')` evaluates the property
+    b = Atom(AtomTop("12", "RA", 1, 0), AtomGro([1, "RA", "12", 1, 0.0, 0.0, 0.0]))
+    for obj, want in ((a, AttributeError), (b, OSError)):
+        try:
+            obj.element = 5
+            got = None
+        except Exception as e:   # noqa: BLE001
+            got = type(e)
+        if got is not want:
+            ctx.disagree(case, "C18 routing table: atom.element = 5", want.__name__, getattr(got, "__name__", got))
+    # --- (2) `__getattr__`, name by name, on a live view whose two atoms DIFFER in every shared field (so the
+    #         order "AtomGro first, then AtomTop" is visible), through the heap model
+    wcase = {"kind": "seq", "grammar": 2, "stream": "exact", "labels": "any", "setup": 20260928, "steps": []}
+    w = setup_world(ctx, wcase)
+    w.case = case
+    o = w.env[0]
+    st, view = w.run("getatom 0 0", "mol[0] getatom 0", lambda: o[0],
+                     {"g": w.meta[0]["g"], "t": w.meta[0]["t"], "parent": 0, "k": 0})
+    vi = len(w.env) - 1
+    st, res = w.run("getres 0 0", "mol[0].residues[0]", lambda: o.residues[0],
+                    {"g": w.meta[0]["g"], "t": None, "parent": 0, "k": None})
+    ri = len(w.env) - 1
+    st, ag = w.run(f"getatom {ri} 0", "res getatom 0", lambda: res[0],
+                   {"g": w.meta[0]["g"], "t": None, "parent": ri, "k": 0})
+    ai = len(w.env) - 1
+    for nm, v in (("resid", 777), ("name", "GN"), ("resname", "GRN"), ("atomid", 4242)):
+        w.run(f"setattrn {ai} {hg.hexs(nm)} {tok_pyval(to_pyval(v))}", f"agro.{nm}={v!r}",
+              lambda nm=nm, v=v: setattr(ag, nm, v))
+    for nm, v in (("top_resid", 555), ("index", 9), ("bonds", {2, 5})):
+        w.run(f"setattrn {vi} {hg.hexs(nm)} {tok_pyval(to_pyval(v))}", f"view.{nm}={v!r}",
+              lambda nm=nm, v=v: setattr(view, nm, v))
+    for handle, hi, kind in ((view, vi, "atom"), (ag, ai, "agro")):
+        for nm in GET_NAMES:
+            st, ret = w.run(f"getattrn {hi} {hg.hexs(nm)}", f"getattr({kind}, {nm!r})",
+                            lambda handle=handle, nm=nm: (getattr(handle, nm),))
+            if st == "ok":
+                w.extra[-1] = to_pyval(ret[0])
+            ctx.count(f"route-get:{kind}:{st}")
+
+    def cb2(status, toks, case, w=w):
+        if status != "ok":
+            ctx.disagree(case, "heapseq", "ok", status)
+            return
+        hg.compare_with_model(ctx, case, w, toks, 0.0, "C18 attribute reads", extra_cb=values_cb(ctx, case, 0.0))
+    ctx.model.ask("heapseq", w.request(), cb2, case)
+    ctx.case({"kind": "routes", "names": len(names)}, nontrivial=False,
+             sample={"names": names[:8], "n": len(names)})
+
+
 # ----------------------------------------------------------------------------- evaluate
 
 def evaluate(ctx, case):
+    if case.get("kind") == "routes":
+        return evaluate_routes(ctx, case)
     w = setup_world(ctx, case)
+    w.case = case
+    grammar = case.get("grammar", 1)
     mode = case.get("labels", "deep")
     copies = 0
     mutations_after_copy = 0
@@ -540,13 +1010,15 @@ def evaluate(ctx, case):
         rng = random.Random(seed)
         observe_readonly(ctx, case, w, seed, stepno)
         before = w.snaps[-1]
-        rec = do_step(ctx, w, rng, mode)
+        rec = do_step(ctx, w, rng, mode, grammar)
         after = w.snaps[-1]
         ctx.count(f"op:{rec['op']}:{rec['kind']}:{rec['status']}")
+        if rec["kind"] == "mol" and after[rec["i"]][0] == "MR":
+            ctx.count(f"ragged-molecule:{rec['op']}:{rec['status']}")
         if rec["status"] == "ok":
-            if rec["op"] in ("copy", "deepcopy", "molwith"):
+            if rec["op"] in ("copy", "deepcopy", "molwith") or rec.get("copylike"):
                 copies += 1
-            elif rec["op"] not in PRODUCERS and copies:
+            elif rec["op"] not in PRODUCERS and not rec["alloc_only"] and copies:
                 mutations_after_copy += 1
         oracle_step(ctx, case, w, rec, before, after, stepno)
     if not w.inputs_intact():
@@ -556,7 +1028,9 @@ def evaluate(ctx, case):
     ctx.oracle_ok(1)
     ctx.count("stream:" + case["stream"])
     ctx.count("labels:" + mode)
-    ctx.case({"setup": case["setup"], "steps": case["steps"], "stream": case["stream"], "labels": mode},
+    ctx.count("grammar:%d" % grammar)
+    ctx.case({"setup": case["setup"], "steps": case["steps"], "stream": case["stream"], "labels": mode,
+              "grammar": grammar},
              nontrivial=copies >= 1 and mutations_after_copy >= 2,
              sample={"stream": case["stream"], "ops": w.desc[:12], "n_ops": len(w.desc)})
     tol = 0.0 if case["stream"] == "exact" else TOL
@@ -565,7 +1039,7 @@ def evaluate(ctx, case):
         if status != "ok":
             ctx.disagree(case, "heapseq", "ok", status)
             return
-        hg.compare_with_model(ctx, case, w, toks, tol, "C18 heap model")
+        hg.compare_with_model(ctx, case, w, toks, tol, "C18 heap model", extra_cb=values_cb(ctx, case, tol))
     ctx.model.ask("heapseq", w.request(), cb, case)
     if len(ctx.model.queue) >= 25:          # keep the worlds (held by the callbacks) short-lived
         ctx.model.flush(ctx)
